@@ -438,11 +438,13 @@ def wired_chain_rules(ctx, rule_drop, rule_keep) -> None:
 
     def feed_for(second):
         def feed(I):
+            # "any": a mnemonic about which nothing is known except that it is not the pseudo mnemonic `empty`
+            mn = Str.lit(second) if second != "any" else Str((Hole("MN", "f", True, lambda op, a: False if (op == "eq" and a == "empty") else None),))
             return [I.construct(ins, [], {"addr": T("A1"), "mnemonic": Str.lit("empty"), "operands": ListV([])}, None, None),
-                    I.construct(ins, [], {"addr": T("A2"), "mnemonic": Str.lit(second), "operands": ListV([T("OP")])}, None, None)]
+                    I.construct(ins, [], {"addr": T("A2"), "mnemonic": mn, "operands": ListV([T("OP")])}, None, None)]
         return feed
     sc = []
-    for second in ("mov", "call"):
+    for second in ("mov", "call", "any"):
         for s_ in match_scenarios(Im, file_types=("assembly",), return_modes=("bool",), search_modes=("first_find", "all_finds"),
                                   only_addrs=(False,), configs=({}, {"valid_addr_range": {"min": Sym("RANGE_MIN"), "max": Sym("RANGE_MAX")}}),
                                   feed=feed_for(second)):
@@ -450,11 +452,11 @@ def wired_chain_rules(ctx, rule_drop, rule_keep) -> None:
             sc.append(s_)
     for s in sc:
         construct = (f"perform_matching[{s.cfg['search_mode']}, range {'configured' if s.cfg['config'] else 'absent'}]: listing = empty pseudo "
-                     f"instruction, {'ordinary instruction' if s.cfg['second'] == 'mov' else 'direct call'}")
+                     "instruction, " + {'mov': 'ordinary instruction', 'call': 'direct call', 'any': 'instruction with any other mnemonic'}[s.cfg['second']])
         if s.path.kind != "return":
             if any(isinstance(k, tuple) and k[0] == "noraise" and v is False for k, v, _ in s.path.conds):
                 continue        # the modelled regex timeout
-            if s.cfg["second"] == "call" and s.path.exc.type_name == "ValueError":
+            if s.cfg["second"] in ("call", "any") and s.path.exc.type_name == "ValueError":
                 continue        # int() of an opaque branch target may raise: outside this rule
             ctx.fail(rule_keep, construct, f"raises {s.path.exc.type_name}", "the operation raises on a two-line listing")
             continue
@@ -467,3 +469,58 @@ def wired_chain_rules(ctx, rule_drop, rule_keep) -> None:
                   "nothing of the byte-continuation pseudo instruction reaches the searched stream")
         ctx.check(st.count("|") == 1 and "A2" in st, rule_keep, construct, st[:160],
                   "the other instruction reaches the searched stream as exactly one record")
+
+
+def searched_pattern_is_the_rule(ctx, rule: str) -> int:
+    """in every mode combination (first/all, address-only or not, every return mode) the pattern handed to the regex engine is
+    the regex the rule compiled to - as produced, or compiled from exactly that text - never a rewritten one"""
+    import re as _re
+    from ..matchflow import match_interp, match_scenarios
+    Im = match_interp(ctx.p)
+    n = 0
+    seen = {}
+    for s in match_scenarios(Im, file_types=("assembly",), configs=({},)):
+        if s.path.kind != "return":
+            continue
+        key = (s.cfg["search_mode"], s.cfg["only_addr"], s.cfg["return_mode"])
+        for e in s.path.events:
+            if e.kind == "extern_call" and e.name.startswith("regex.") or (e.kind == "extern_call" and e.name.startswith("re.")
+                                                                          and e.name.split(".")[-1] in ("search", "finditer", "match", "fullmatch", "findall")):
+                pat = _re.sub(r"#\d+", "", Im.expr_of(e.kwargs.get("pattern")))
+                seen.setdefault(key, set()).add(pat)
+    for key, pats in sorted(seen.items(), key=str):
+        n += 1
+        ok = all(p_ == "<REGEX>" or _re.fullmatch(r"(regex|re)\.compile\(<REGEX>\)", p_) for p_ in pats)
+        ctx.check(ok, rule, f"perform_matching[{key[0]},only_addr={key[1]},{key[2]}]", f"pattern searched: {sorted(pats)}"[:200],
+                  "the pattern searched is the regex the rule compiled to, unmodified")
+    if not seen:
+        from ..facts import AnalysisError
+        raise AnalysisError(f"{rule}: no regex search seen in the match flow")
+    return n
+
+
+def macro_files_reach_the_compiler(ctx, rule: str) -> int:
+    """the extra macro files named in MatchConfig.macros are handed to Yaml2Regex as given: the same list, nothing dropped,
+    expanded or reordered on the way (a file that silently disappears takes its definitions with it)"""
+    from ..matchflow import match_interp, match_scenarios
+    from ..values import Hole, ListV, Str
+    Im = match_interp(ctx.p)
+    given = ListV([Str((Hole("MACRO_FILE_1", "path", True),)), Str((Hole("MACRO_FILE_2", "path", True),))])
+    n = 0
+    for s in match_scenarios(Im, file_types=("assembly",), return_modes=("bool",), search_modes=("first_find",), only_addrs=(False,),
+                             configs=({},), macros=given):
+        cons = [e for e in s.path.events if e.kind == "construct" and e.cls == "Yaml2Regex"]
+        if not cons:
+            continue
+        n += 1
+        e = cons[0]
+        vals = list(e.args) + list(e.kwargs.values())
+        got = [Im.expr_of(v) for v in vals]
+        ok = any(v is given or (isinstance(v, ListV) and v.absorbed is None and [Im.expr_of(x) for x in v.items] ==
+                                ["<MACRO_FILE_1>", "<MACRO_FILE_2>"]) for v in vals)
+        ctx.check(ok, rule, "MasterOfPuppets.__init__ -> Yaml2Regex(...)", f"Yaml2Regex receives {got}"[:200],
+                  "Yaml2Regex receives the list of extra macro files exactly as MatchConfig.macros names them")
+    if n == 0:
+        from ..facts import AnalysisError
+        raise AnalysisError(f"{rule}: no construction of Yaml2Regex seen in the match flow")
+    return n
